@@ -116,16 +116,19 @@ func (c *Ctx) Violate(v Violation) {
 		return
 	}
 	c.Res.NViolations++
-	key := v.Oracle + "|" + v.Class + "|" + v.Pointer
-	n := 0
-	for _, o := range c.Res.Violations {
-		if o.Oracle+"|"+o.Class+"|"+o.Pointer == key {
-			n++
-		}
-	}
-	if n < 2 && len(c.Res.Violations) < 24 {
+	sig := violSig(v)
+	c.Res.Counters[sig]++
+	if c.Res.Counters[sig] <= 1 && len(c.Res.Violations) < 24 {
 		c.Res.Violations = append(c.Res.Violations, v)
 	}
+}
+
+func violSig(v Violation) string {
+	sig := "viol:" + v.Oracle + "/" + v.Class
+	if v.Features != nil {
+		sig += " owner=" + v.Features["owner"] + " member=" + v.Features["member"] + " sym=" + v.Features["symptom"]
+	}
+	return sig
 }
 
 func die(f string, a ...interface{}) {
@@ -525,6 +528,13 @@ func orchestrate(args []string) {
 	writeEvidence(id, tier, seed, cov, def.Assumptions, start, len(confirmed))
 	fmt.Printf("%s %s: states=%d transitions=%d evaluations=%d nontrivial=%d validated=%d outcomes=%d exhaustive=%v known=%d wall=%.1fs\n",
 		id, tier, total.States, total.Transitions, total.Evaluations, total.Nontrivial, validated, len(total.Outcomes), total.Exhaustive, len(total.Known), time.Since(start).Seconds())
+	if total.NViolations > 0 {
+		for _, k := range sortedCounter(total.Counters) {
+			if strings.HasPrefix(k, "viol:") {
+				fmt.Printf("  %8d  %s\n", total.Counters[k], k)
+			}
+		}
+	}
 	if len(confirmed) > 0 {
 		for i, v := range confirmed {
 			if i >= 10 {
@@ -573,7 +583,13 @@ func mergeResult(a, b *WorkerResult) {
 		a.Bounds[k] = v
 	}
 	for _, v := range b.Violations {
-		if len(a.Violations) < 40 {
+		dup := false
+		for _, o := range a.Violations {
+			if violSig(o) == violSig(v) {
+				dup = true
+			}
+		}
+		if !dup && len(a.Violations) < 40 {
 			a.Violations = append(a.Violations, v)
 		}
 	}
